@@ -41,6 +41,7 @@ class State:
         self.frames = []         # saved locals of callers
         self.cfg = {}            # symbolic configuration booleans (OPT, WERR)
         self.cur_exc = None      # exception being handled (for bare raise)
+        self.ghost = {}          # ghost state variables (z3 array terms), see LoopSpec.ghost_vars
 
     def fork(self):
         s = State.__new__(State)
@@ -60,6 +61,7 @@ class State:
         s.frames = list(self.frames)
         s.cfg = self.cfg
         s.cur_exc = self.cur_exc
+        s.ghost = dict(self.ghost)
         return s
 
     def assume(self, *fs):
